@@ -28,7 +28,7 @@ def gen_case(rng, k):
             lines.append("")
             continue
         name = "me%d_%d" % (k, i)
-        style = rng.choice(["plain", "plain", "self", "endless", "multi", "sclass"])
+        style = rng.choice(["plain", "plain", "self", "endless", "multi", "sclass", "endless-multi", "self-endless-multi", "self-multi"])
         row = len(lines) + 1
         if style == "plain":
             lines += ["  def %s(a)" % name, "    a", "  end"]
@@ -45,6 +45,19 @@ def gen_case(rng, k):
             defs.append((row, name, False, vis, cname))
             if vis == "public":
                 inst.append((name, 1))
+        elif style == "endless-multi":
+            # the signature of an endless definition spread over two or three lines: the row is still the `def` line
+            if rng.random() < 0.5:
+                lines += ["  def %s(a," % name, "      b) = a"]
+            else:
+                lines += ["  def %s(a," % name, "      b,", "      c = 2) = a"]
+            defs.append((row, name, False, vis, cname))
+        elif style == "self-endless-multi":
+            lines += ["  def self.%s(a," % name, "      b = 2) = a"]
+            defs.append((row, name, True, vis, cname))
+        elif style == "self-multi":
+            lines += ["  def self.%s(a," % name, "      b)", "    a", "  end"]
+            defs.append((row, name, True, vis, cname))
         elif style == "multi":
             lines += ["  def %s(a," % name, "      b)", "    a", "  end"]
             defs.append((row, name, False, vis, cname))
@@ -61,10 +74,13 @@ def gen_case(rng, k):
     lines.append("")
     tname = "top%d" % k
     row = len(lines) + 1
-    if rng.random() < 0.5:
+    r = rng.random()
+    if r < 0.4:
         lines += ["def %s(t)" % tname, "  t", "end"]
-    else:
+    elif r < 0.7:
         lines += ["def %s(t) = t" % tname]
+    else:
+        lines += ["def %s(t," % tname, "    u = 1) = t"]
     defs.append((row, tname, False, "public", ""))
     lines.append("o%d = %s.new" % (k, cname))
     for name, ar in inst:
